@@ -48,7 +48,7 @@ class C05(PropBase):
         more = []
         seen = set()
         for c in cases:
-            if c.stream == 'roundtrip' and c.meta['sid'] not in seen:
+            if c.stream in ('roundtrip', 'path') and c.meta['sid'] not in seen:
                 seen.add(c.meta['sid'])
                 more.append(Case('obs', [['s', c.meta['sid']]], 'obs', {'sid': c.meta['sid']}))
         return more
